@@ -96,6 +96,17 @@ func restartAlpha() qcheck.Alpha {
 	}
 }
 
+// churnAlpha: settlements and operator transitions around one burst of traffic on another route that takes the memory
+// store past the size thresholds of its bookkeeping (real thresholds, no scaling).
+func churnAlpha() qcheck.Alpha {
+	a := restartAlpha()
+	a.IDs = []string{"a", "b", "c"}
+	a.Reopen = false
+	a.Operator = []string{"cancel", "requeue", "resume", "rqdead"}
+	a.Churn = 1500
+	return a
+}
+
 func TestCheck(t *testing.T) {
 	r := runner.Start("C02", "model_checking")
 	var jobs []job
@@ -104,6 +115,9 @@ func TestCheck(t *testing.T) {
 	}
 	jobs = append(jobs, job{"sqlite", runner.Pick(r, 5, 6), qmodel.Config{}, "restart", false, 0},
 		job{"sqlite", runner.Pick(r, 5, 6), qmodel.Config{DeliveredMaxAge: 10 * sec, DLQMaxAge: 10 * sec, PruneInterval: sec}, "restart", false, 0})
+	for pi := range qcheck.RichPrefixes(alpha()) {
+		jobs = append(jobs, job{"memory", runner.Pick(r, 4, 5), qmodel.Config{}, "churn", false, pi + 1})
+	}
 	// non-initial start states (parked, settled, delayed and expired-lease populations), both backends
 	for pi := range qcheck.RichPrefixes(alpha()) {
 		jobs = append(jobs, job{"memory", runner.Pick(r, 4, 5), qmodel.Config{}, "", true, pi + 1}, job{"sqlite", runner.Pick(r, 3, 4), qmodel.Config{}, "", false, pi + 1})
@@ -120,7 +134,7 @@ func TestCheck(t *testing.T) {
 		jobs = append(jobs, job{"memory", runner.Pick(r, 6, 7), cfg, "dlq", false, 0}, job{"sqlite", runner.Pick(r, 5, 6), cfg, "dlq", false, 0})
 	}
 	if runner.ReplayPath() != "" {
-		if !qcheck.HandleReplay(r, []qcheck.Spec{{Name: "c02", Alpha: alpha()}, {Name: "c02-dlq", Alpha: dlqAlpha()}, {Name: "c02-restart", Alpha: restartAlpha()}}, nil) {
+		if !qcheck.HandleReplay(r, []qcheck.Spec{{Name: "c02", Alpha: alpha()}, {Name: "c02-dlq", Alpha: dlqAlpha()}, {Name: "c02-restart", Alpha: restartAlpha()}, {Name: "c02-churn", Alpha: churnAlpha()}}, nil) {
 			twoHandlePart(r, t)
 		}
 		r.Finish()
@@ -137,9 +151,15 @@ func TestCheck(t *testing.T) {
 		if j.focus == "restart" {
 			al, name = restartAlpha(), "c02-restart"
 		}
+		if j.focus == "churn" {
+			al, name = churnAlpha(), "c02-churn"
+		}
 		var pre qcheck.Prefix
 		if j.prefix > 0 {
 			pre = qcheck.RichPrefixes(alpha())[j.prefix-1]
+			if j.focus == "churn" {
+				pre = qcheck.RichPrefixes(churnAlpha())[j.prefix-1]
+			}
 		}
 		spec := qcheck.Spec{Name: name, Backend: j.backend, Prefix: pre.Ops, PrefixName: pre.Name, Cfg: j.cfg, Alpha: al, Depth: j.depth, Workers: 3, ScaleCompaction: j.scaled,
 			MaxTrans: runner.Pick(r, int64(3_000_000), int64(40_000_000)), Deadline: time.Now().Add(budget)}
